@@ -131,6 +131,23 @@ impl Routine for Disk {
         Ok(o)
     }
 
+    fn follow_up(h: &DiskHist, dir: &Path) -> Option<Result<Obs, String>> {
+        // later session: a fresh instance replaces every key by a 1-byte value (shorter than anything
+        // written before) and removes the last key; then a fresh instance observes
+        Some((|| {
+            let rt = crate::rt();
+            let c = open(dir, h.levels)?;
+            for (i, k) in KEYS.iter().enumerate() {
+                rt.block_on(c.put(SKey((*k).into()), bytes::Bytes::from(vec![b'a' + i as u8]))).map_err(|e| format!("follow-up put({k}): {e}"))?;
+            }
+            if let Some(k) = KEYS.last() {
+                rt.block_on(c.remove(&SKey((*k).into()))).map_err(|e| format!("follow-up remove({k}): {e}"))?;
+            }
+            drop(c);
+            Self::observe(h, dir)
+        })())
+    }
+
     fn site_class(snap: &Snapshot, _before: &Files) -> String {
         crate::generic_site_class(snap)
     }
